@@ -530,7 +530,9 @@ class Gen:
         later (g/fe, possibly re-defined) call only prelude functions."""
         self.count('funcdef')
         nargs = self.rng.randint(0, 3)
-        params = ['p', 'q', 'r'][:nargs]
+        # every third definition names its parameters like global variables of the program: an omitted argument must read as null
+        # there, not as the global of the same name
+        params = (['a', 'n', 'y'] if self.rng.random() < 0.33 else ['p', 'q', 'r'])[:nargs]
         laa = nargs > 0 and self.rng.random() < 0.25
         prelude = ['fa', 'fb', 'fc']
         if name is None:
@@ -544,6 +546,8 @@ class Gen:
         # let bodies use their parameters
         if params:
             body.insert(0, {'k': 'expr', 'name': 'x', 'e': var(self.rng.choice(params))})
+            if self.rng.random() < 0.3:
+                body.insert(0, {'k': 'expr', 'name': None, 'e': call('systemLog', var(params[-1]))})
         self.funcs = saved
         if not any(f[0] == name for f in self.funcs):
             self.funcs.append((name, nargs, laa))
